@@ -374,3 +374,465 @@ Print Assumptions C10_dot_scalar_is_multiply.
 Print Assumptions C10_tuple_get_create.
 Print Assumptions C10_vector_create_repeat.
 Print Assumptions C10_reshape_array_identity.
+
+(* ====================================================================================== *)
+(* Gemm (ONNX Gemm with alpha = 1, beta = 0, C = 0; graphs.rs:1809): op(A) op(B) where op
+   transposes the last two dimensions when the flag is set; stacks of matrices whose batch
+   dimensions b0, b1 broadcast to br (any number of batch dimensions, all four flag combinations):
+   c[batch, i, j] = sum_l op(A)[bcast batch, i, l] * op(B)[bcast batch, l, j]  mod 2^w,
+   op(A)[.., i, l] = A[.., l, i] if transpose_a else A[.., i, l]  ([tr_pair], Graph/Spec.v). *)
+From CC Require Import Proofs.EvalSpecGemm.
+
+Theorem C10_gemm_spec : forall st st0 st1 ta tb b0 b1 br n k m e0 e1,
+  bcast_to b0 br -> bcast_to b1 br -> 0 < n -> 0 < k -> 0 < m ->
+  let s0 := b0 ++ tr_pair ta n k in let s1 := b1 ++ tr_pair tb k m in let rs := br ++ [n; m] in
+  length e0 = Z.to_nat (prod_list s0) -> length e1 = Z.to_nat (prod_list s1) ->
+  exists r, eval_node (OGemm ta tb) [TArray s0 st0; TArray s1 st1] (TArray rs st) [VArr e0; VArr e1] = Ok (VArr r) /\
+    length r = Z.to_nat (prod_list rs) /\
+    forall bi i j, in_shape bi br -> 0 <= i < n -> 0 <= j < m ->
+      get r rs (bi ++ [i; j]) =
+      dot_sum k (fun l => get e0 s0 (bcast_index b0 br bi ++ tr_pair ta i l))
+                (fun l => get e1 s1 (bcast_index b1 br bi ++ tr_pair tb l j)) mod modulus st.
+Proof. exact gemm_spec. Qed.
+(* the evaluator's transposition of an operand swaps the last two coordinates *)
+Theorem C10_transpose_spec : forall F x y es,
+  valid_shape (F ++ [x; y]) -> length es = Z.to_nat (prod_list (F ++ [x; y])) ->
+  exists r, eval_transpose (F ++ [x; y]) es = Ok r /\ length r = length es /\
+    forall f i j, in_shape f F -> 0 <= i < x -> 0 <= j < y ->
+      get r (F ++ [y; x]) (f ++ [j; i]) = get es (F ++ [x; y]) (f ++ [i; j]).
+Proof. exact transpose_spec. Qed.
+(* Gemm without flags on the second operand's transposition is Matmul's formula: with
+   ta = false, tb = false the right-hand sides of C10_gemm_spec and C10_matmul_spec coincide. *)
+Example C10_example_gemm :
+  bcast_to [2] [2] /\ bcast_to [1] [2] /\
+  (* op(A) = A^T: batch 0 (2^127, 2^100), batch 1 (3, 2^64); op(B) = B^T = [[2, 2^27], [1, 5]] *)
+  eval_node (OGemm true true) [TArray [2; 2; 1] U128; TArray [1; 2; 2] U128] (TArray [2; 1; 2] U128)
+            [VArr [2 ^ 127; 2 ^ 100; 3; 2 ^ 64]; VArr [2; 1; 2 ^ 27; 5]]
+  = Ok (VArr [2 ^ 100; 5 * 2 ^ 100; 2 ^ 64 + 6; 3 * 2 ^ 27 + 5 * 2 ^ 64]) /\
+  (* [[200, 3]] x [[2, 1], [0, 5], [7, 100]]^T = [403, 15, 1700] mod 256 *)
+  eval_node (OGemm false true) [TArray [1; 2] U8; TArray [3; 2] U8] (TArray [1; 3] U8)
+            [VArr [200; 3]; VArr [2; 1; 0; 5; 7; 100]]
+  = Ok (VArr [147; 15; 164]).
+Proof. split; [c10_bc|split; [c10_bc|split; vm_compute; reflexivity]]. Qed.
+
+Print Assumptions C10_gemm_spec.
+Print Assumptions C10_transpose_spec.
+
+(* ====================================================================================== *)
+(* Stack (graphs.rs:2589): prod(outer) items, each a scalar or an array broadcastable (NumPy
+   rule) to the common inner shape, arranged row-major along the new leading dimensions [outer]:
+   result[oi ++ ii] = item_{row-major number of oi}[broadcast ii].
+   [stack_inner inner] is [inner], or [1] when only scalars are stacked (inner = [], the result
+   type is then TArray outer and result[oi] is the oi-th scalar: C10_stack_scalars). *)
+From CC Require Import Proofs.EvalSpecStack.
+
+Theorem C10_stack_spec : forall outer inner st ess dts,
+  valid_shape outer -> valid_shape inner ->
+  let inner' := stack_inner inner in
+  Z.of_nat (length ess) = prod_list outer ->
+  Forall2 (fun es dty => is_leaf dty = true /\ bcast_to (dims dty) inner' /\
+                         length es = Z.to_nat (prod_list (dims dty))) ess dts ->
+  exists r, eval_node (OStack outer) dts (TArray (outer ++ inner) st) (map VArr ess) = Ok (VArr r) /\
+    length r = Z.to_nat (prod_list (outer ++ inner)) /\
+    forall oi ii, in_shape oi outer -> in_shape ii inner' ->
+      let q := Z.to_nat (flat_pos oi outer) in
+      let sq := dims (nth q dts (TTuple [])) in
+      get r (outer ++ inner') (oi ++ ii) = get (nth q ess []) sq (bcast_index sq inner' ii).
+Proof. exact stack_spec. Qed.
+(* stacking scalars: the oi-th element of the result is the oi-th scalar *)
+Theorem C10_stack_scalars : forall outer st sts (xs : list Z),
+  valid_shape outer -> Z.of_nat (length xs) = prod_list outer -> length sts = length xs ->
+  exists r, eval_node (OStack outer) (map TScalar sts) (TArray outer st) (map (fun x => VArr [x]) xs) = Ok (VArr r) /\
+    length r = Z.to_nat (prod_list outer) /\
+    forall oi, in_shape oi outer -> get r outer oi = nth (Z.to_nat (flat_pos oi outer)) xs 0.
+Proof.
+  intros outer st sts xs Hvo Hn Hl.
+  assert (HF : Forall2 (stack_item_ok (stack_inner [])) (map (fun x => [x]) xs) (map TScalar sts)).
+  { clear Hn. revert sts Hl. induction xs as [|x xs IH]; intros [|s sts] Hl; cbn in Hl; try lia; cbn [map]; constructor.
+    - split; [reflexivity|]. split; [c10_bc|reflexivity].
+    - apply IH. lia. }
+  destruct (stack_spec outer [] st (map (fun x => [x]) xs) (map TScalar sts) Hvo ltac:(constructor)
+              ltac:(now rewrite map_length) HF) as (r & E & L & S).
+  rewrite map_map, app_nil_r in E. rewrite app_nil_r in L.
+  exists r. split; [exact E|]. split; [exact L|].
+  intros oi Hoi. pose proof (flat_pos_range _ _ Hoi) as R.
+  specialize (S oi [0] Hoi ltac:(repeat constructor; lia)). cbv zeta in S. cbn [stack_inner] in S.
+  destruct (get_trailing_one r outer oi) as [G|G]; [|exfalso; apply G; now apply in_shape_length].
+  rewrite <- G, S.
+  rewrite nth_indep with (d' := TScalar Bit) by (rewrite map_length; lia).
+  rewrite map_nth. cbn [dims].
+  rewrite nth_indep with (d' := [0]) by (rewrite map_length; lia).
+  rewrite (map_nth (fun x => [x])). reflexivity.
+Qed.
+
+(* Concatenate (numpy.concatenate, graphs.rs:2624): operands of shapes pre ++ [n_q] ++ post are
+   joined along the axis |pre|; coordinate x on that axis falls into operand q at local coordinate
+   y, (q, y) = concat_locate ns x (the operand sizes are subtracted from x in turn). *)
+Theorem C10_concatenate_spec : forall pre post ns ess st st',
+  valid_shape pre -> valid_shape post ->
+  Forall2 (fun es n => 0 < n /\ length es = Z.to_nat (prod_list (pre ++ n :: post))) ess ns ->
+  let N := list_sum_z ns in let rs := pre ++ N :: post in
+  exists r, eval_node (OConcatenate (Z.of_nat (length pre)))
+                      (map (fun n => TArray (pre ++ n :: post) st) ns) (TArray rs st') (map VArr ess)
+            = Ok (VArr r) /\
+    length r = Z.to_nat (prod_list rs) /\
+    forall ip x ipost, in_shape ip pre -> 0 <= x < N -> in_shape ipost post ->
+      let q := fst (concat_locate ns x) in let y := snd (concat_locate ns x) in
+      (q < length ns)%nat /\ 0 <= y < nth q ns 0 /\
+      get r rs (ip ++ x :: ipost) = get (nth q ess []) (pre ++ nth q ns 0 :: post) (ip ++ y :: ipost).
+Proof. exact concatenate_spec. Qed.
+
+Example C10_example_stack :
+  (* the documented example: stack([[1,2],[3,4]], [[5],[6]]; [2]) = [[[1,2],[3,4]], [[5,5],[6,6]]] *)
+  Forall2 (stack_item_ok (stack_inner [2; 2])) [[1; 2; 3; 2 ^ 100]; [5; 2 ^ 127]]
+          [TArray [2; 2] U128; TArray [2; 1] U128] /\
+  eval_node (OStack [2]) [TArray [2; 2] U128; TArray [2; 1] U128] (TArray [2; 2; 2] U128)
+            [VArr [1; 2; 3; 2 ^ 100]; VArr [5; 2 ^ 127]]
+  = Ok (VArr [1; 2; 3; 2 ^ 100; 5; 5; 2 ^ 127; 2 ^ 127]) /\
+  eval_node (OStack [2]) [TScalar U8; TScalar U8] (TArray [2] U8) [VArr [7]; VArr [9]] = Ok (VArr [7; 9]) /\
+  eval_node (OStack [2; 1]) [TScalar U8; TArray [3] U8] (TArray [2; 1; 3] U8) [VArr [7]; VArr [1; 2; 3]]
+  = Ok (VArr [7; 7; 7; 1; 2; 3]).
+Proof.
+  split; [|repeat split; vm_compute; reflexivity].
+  constructor; [split; [reflexivity|split; [c10_bc|reflexivity]]|].
+  constructor; [split; [reflexivity|split; [c10_bc|reflexivity]]|constructor].
+Qed.
+Example C10_example_concatenate :
+  (* concatenate([[1],[2^100]], [[3,4],[5,2^127]], axis=1) = [[1,3,4],[2^100,5,2^127]] *)
+  Forall2 (concat_item_ok [2] []) [[1; 2 ^ 100]; [3; 4; 5; 2 ^ 127]] [1; 2] /\
+  eval_node (OConcatenate 1) [TArray [2; 1] U128; TArray [2; 2] U128] (TArray [2; 3] U128)
+            [VArr [1; 2 ^ 100]; VArr [3; 4; 5; 2 ^ 127]]
+  = Ok (VArr [1; 3; 4; 2 ^ 100; 5; 2 ^ 127]) /\
+  (concat_locate [1; 2] 0, concat_locate [1; 2] 1, concat_locate [1; 2] 2) = ((O, 0), (1%nat, 0), (1%nat, 1)).
+Proof.
+  split; [|split; vm_compute; reflexivity].
+  constructor; [split; [lia|reflexivity]|]. constructor; [split; [lia|reflexivity]|constructor].
+Qed.
+
+Print Assumptions C10_stack_spec.
+Print Assumptions C10_stack_scalars.
+Print Assumptions C10_concatenate_spec.
+
+(* ====================================================================================== *)
+(* Gather (numpy.take(input, indices, axis), graphs.rs:3125): the dimension [axis] of the input
+   (shape pre ++ [d] ++ post, axis = |pre|) is replaced by the shape of the index array:
+   result[ip ++ ii ++ ipost] = input[ip ++ [indices[ii]] ++ ipost].
+   Indices are read as unsigned 64-bit values ([as_u64], the identity on the index types the
+   type checker admits: C10_gather_index_value); an index >= d is an error, not a wrap-around.
+   The documented uniqueness of the indices is not needed (and not checked by the evaluator). *)
+From CC Require Import Proofs.EvalSpecGather.
+
+Theorem C10_gather_spec : forall pre d post ish st ist t es idx,
+  valid_shape pre -> 0 < d -> valid_shape post -> valid_shape ish ->
+  length es = Z.to_nat (prod_list (pre ++ d :: post)) ->
+  length idx = Z.to_nat (prod_list ish) ->
+  Forall (fun x => as_u64 ist x < d) idx ->
+  let sh := pre ++ d :: post in let rs := pre ++ ish ++ post in
+  exists r, eval_node (OGather (Z.of_nat (length pre))) [TArray sh st; TArray ish ist] t [VArr es; VArr idx]
+            = Ok (VArr r) /\
+    length r = Z.to_nat (prod_list rs) /\
+    forall ip ii ipost, in_shape ip pre -> in_shape ii ish -> in_shape ipost post ->
+      get r rs (ip ++ ii ++ ipost) = get es sh (ip ++ as_u64 ist (get idx ish ii) :: ipost).
+Proof. exact gather_spec. Qed.
+Theorem C10_gather_index_value : forall st x,
+  width st <> 128 -> signed st = false -> 0 <= x < modulus st -> as_u64 st x = x.
+Proof. exact as_u64_index. Qed.
+
+Example C10_example_gather :
+  (* take([[1,2,3],[4,5,2^100]], [2,0], axis=1) = [[3,1],[2^100,4]] *)
+  Forall (fun x => as_u64 U64 x < 3) [2; 0] /\
+  eval_node (OGather 1) [TArray [2; 3] U128; TArray [2] U64] (TArray [2; 2] U128)
+            [VArr [1; 2; 3; 4; 5; 2 ^ 100]; VArr [2; 0]]
+  = Ok (VArr [3; 1; 2 ^ 100; 4]) /\
+  (* take([[1,2],[3,4],[5,6]], [[2,0]], axis=0) = [[[5,6],[1,2]]] *)
+  eval_node (OGather 0) [TArray [3; 2] U8; TArray [1; 2] U32] (TArray [1; 2; 2] U8)
+            [VArr [1; 2; 3; 4; 5; 6]; VArr [2; 0]]
+  = Ok (VArr [5; 6; 1; 2]).
+Proof. split; [repeat constructor|split; vm_compute; reflexivity]. Qed.
+
+Print Assumptions C10_gather_spec.
+Print Assumptions C10_gather_index_value.
+
+(* ====================================================================================== *)
+(* Reshape, for values of any type (graphs.rs:2308): a value that in flattened form contains as
+   many arrays and scalars as the new type is rebuilt with the tree structure of the new type and
+   exactly the same leaves in the same order; each leaf keeps its flattened (row-major) elements,
+   which is numpy.reshape's C order: an element keeps its row-major number
+   (C10_reshape_array_order). *)
+From CC Require Import Proofs.EvalSpecStruct.
+
+Theorem C10_reshape_spec : forall new_t t0 t a,
+  length (flatten_value a) = leaf_count new_t ->
+  exists v, eval_node (OReshape new_t) [t0] t [a] = Ok v /\
+            flatten_value v = flatten_value a /\ shaped v new_t.
+Proof. exact reshape_spec. Qed.
+Theorem C10_reshape_array_order : forall old_sh new_sh st' t0 t es,
+  eval_node (OReshape (TArray new_sh st')) [t0] t [VArr es] = Ok (VArr es) /\
+  forall idx idx', flat_pos idx new_sh = flat_pos idx' old_sh -> get es new_sh idx = get es old_sh idx'.
+Proof. intros. split; [reflexivity|]. intros idx idx' H. unfold get. now rewrite H. Qed.
+
+(* Zip (graphs.rs:2913): vectors of the same length n give the vector of the n tuples of their
+   i-th entries. *)
+Theorem C10_zip_spec : forall dts t (ls : list (list value)) n,
+  ls <> [] -> Forall (fun l => length l = n) ls ->
+  eval_node OZip dts t (map VTup ls)
+  = Ok (VTup (map (fun i => VTup (map (fun l => nth i l (VArr [])) ls)) (seq 0 n))).
+Proof. exact zip_spec. Qed.
+
+(* Repeat: a vector of n copies *)
+Theorem C10_repeat_spec : forall n dts t v,
+  exists l, eval_node (ORepeat n) dts t [v] = Ok (VTup l) /\ length l = Z.to_nat n /\
+            forall i, (i < Z.to_nat n)%nat -> nth i l (VArr []) = v.
+Proof. exact repeat_spec. Qed.
+
+(* ArrayToVector (graphs.rs:3062): an array of shape d :: rest becomes the vector of its d
+   sub-arrays a[x] of shape rest (scalars when rest = []); VectorToArray (graphs.rs:3095) is the
+   converse (numpy.stack of equal-shape arrays); each is the inverse of the other. *)
+Theorem C10_array_to_vector_spec : forall d rest st t es,
+  0 < d -> valid_shape rest -> length es = Z.to_nat (prod_list (d :: rest)) ->
+  exists cs, eval_node OArrayToVector [TArray (d :: rest) st] t [VArr es] = Ok (VTup (map VArr cs)) /\
+    length cs = Z.to_nat d /\ concat cs = es /\
+    forall x, 0 <= x < d ->
+      length (nth (Z.to_nat x) cs []) = Z.to_nat (prod_list rest) /\
+      forall idx, in_shape idx rest ->
+        get (nth (Z.to_nat x) cs []) rest idx = get es (d :: rest) (x :: idx).
+Proof. exact array_to_vector_spec. Qed.
+Theorem C10_vector_to_array_spec : forall t0 t rest cs,
+  valid_shape rest -> Forall (fun c => length c = Z.to_nat (prod_list rest)) cs ->
+  eval_node OVectorToArray [t0] t [VTup (map VArr cs)] = Ok (VArr (concat cs)) /\
+  length (concat cs) = Z.to_nat (prod_list (Z.of_nat (length cs) :: rest)) /\
+  forall x idx, 0 <= x < Z.of_nat (length cs) -> in_shape idx rest ->
+    get (concat cs) (Z.of_nat (length cs) :: rest) (x :: idx) = get (nth (Z.to_nat x) cs []) rest idx.
+Proof. exact vector_to_array_spec. Qed.
+Theorem C10_array_vector_round_trip : forall d rest st t1 t2 es,
+  0 < d -> valid_shape rest -> length es = Z.to_nat (prod_list (d :: rest)) ->
+  (let* v := eval_node OArrayToVector [TArray (d :: rest) st] t1 [VArr es] in
+   eval_node OVectorToArray [t1] t2 [v]) = Ok (VArr es).
+Proof. exact array_vector_round_trip. Qed.
+Theorem C10_vector_array_round_trip : forall t0 t1 t2 st rest cs,
+  valid_shape rest -> cs <> [] -> Forall (fun c => length c = Z.to_nat (prod_list rest)) cs ->
+  (let* a := eval_node OVectorToArray [t0] t1 [VTup (map VArr cs)] in
+   eval_node OArrayToVector [TArray (Z.of_nat (length cs) :: rest) st] t2 [a]) = Ok (VTup (map VArr cs)).
+Proof. exact vector_array_round_trip. Qed.
+
+Example C10_example_reshape :
+  (* a tuple ([2,2], ([4], [1,4])) reshaped to a vector of three [2,2] arrays *)
+  let a := VTup [VArr [1; 2; 3; 4]; VTup [VArr [5; 6; 7; 8]; VArr [9; 10; 11; 2 ^ 100]]] in
+  length (flatten_value a) = leaf_count (TVector 3 (TArray [2; 2] U128)) /\
+  eval_node (OReshape (TVector 3 (TArray [2; 2] U128))) [TTuple []] (TTuple []) [a]
+  = Ok (VTup [VArr [1; 2; 3; 4]; VArr [5; 6; 7; 8]; VArr [9; 10; 11; 2 ^ 100]]).
+Proof. split; vm_compute; reflexivity. Qed.
+Example C10_example_zip :
+  eval_node OZip [] (TTuple []) [VTup [VArr [1]; VArr [2]]; VTup [VArr [3; 4]; VArr [5; 6]]]
+  = Ok (VTup [VTup [VArr [1]; VArr [3; 4]]; VTup [VArr [2]; VArr [5; 6]]]).
+Proof. reflexivity. Qed.
+Example C10_example_array_vector :
+  eval_node OArrayToVector [TArray [2; 3] U128] (TTuple []) [VArr [1; 2; 3; 4; 5; 2 ^ 100]]
+  = Ok (VTup [VArr [1; 2; 3]; VArr [4; 5; 2 ^ 100]]) /\
+  eval_node OVectorToArray [TTuple []] (TTuple []) [VTup [VArr [1; 2; 3]; VArr [4; 5; 2 ^ 100]]]
+  = Ok (VArr [1; 2; 3; 4; 5; 2 ^ 100]).
+Proof. split; vm_compute; reflexivity. Qed.
+
+Print Assumptions C10_reshape_spec.
+Print Assumptions C10_reshape_array_order.
+Print Assumptions C10_zip_spec.
+Print Assumptions C10_repeat_spec.
+Print Assumptions C10_array_to_vector_spec.
+Print Assumptions C10_vector_to_array_spec.
+Print Assumptions C10_array_vector_round_trip.
+Print Assumptions C10_vector_array_round_trip.
+
+(* ====================================================================================== *)
+(* A2B / B2A on whole arrays (graphs.rs:2683, 2710): the bit dimension is the last one, little
+   endian.  A2B: result[idx ++ [j]] = bit j of a[idx];  B2A: result[idx] = sum_j b[idx ++ [j]] 2^j;
+   B2A inverts A2B.  (Element level: C10_b2a_a2b_elem, C10_a2b_bits above.) *)
+From CC Require Import Proofs.EvalSpecBits.
+
+Theorem C10_a2b_array_spec : forall t0 t sh es,
+  valid_shape sh -> length es = Z.to_nat (prod_list sh) ->
+  let W := width (st_of t0) in
+  exists r, eval_node OA2B [t0] t [VArr es] = Ok (VArr r) /\
+    length r = Z.to_nat (prod_list (sh ++ [W])) /\
+    forall idx j, in_shape idx sh -> 0 <= j < W ->
+      get r (sh ++ [W]) (idx ++ [j]) = bit_of (get es sh idx) j.
+Proof. exact a2b_array_spec. Qed.
+Theorem C10_b2a_array_spec : forall st t0 t sh es,
+  valid_shape sh ->
+  let W := width st in
+  length es = Z.to_nat (prod_list (sh ++ [W])) ->
+  exists r, eval_node (OB2A st) [t0] t [VArr es] = Ok (VArr r) /\
+    length r = Z.to_nat (prod_list sh) /\
+    forall idx, in_shape idx sh ->
+      get r sh idx = bits_value (fun j => get es (sh ++ [W]) (idx ++ [j])) W.
+Proof. exact b2a_array_spec. Qed.
+Theorem C10_a2b_b2a_round_trip : forall st sh t1 t2 es,
+  Forall (fun e => 0 <= e < modulus st) es ->
+  (let* b := eval_node OA2B [TArray sh st] t1 [VArr es] in eval_node (OB2A st) [t1] t2 [b]) = Ok (VArr es).
+Proof. exact a2b_b2a_round_trip. Qed.
+
+Example C10_example_a2b_b2a :
+  (* 5 = 0b00000101, 130 = 0b10000010 *)
+  eval_node OA2B [TArray [2] U8] (TArray [2; 8] Bit) [VArr [5; 130]]
+  = Ok (VArr [1; 0; 1; 0; 0; 0; 0; 0;  0; 1; 0; 0; 0; 0; 0; 1]) /\
+  eval_node (OB2A U8) [TArray [2; 8] Bit] (TArray [2] U8) [VArr [1; 0; 1; 0; 0; 0; 0; 0;  0; 1; 0; 0; 0; 0; 0; 1]]
+  = Ok (VArr [5; 130]) /\
+  bit_of 130 7 = 1 /\ bits_value (fun j => nth (Z.to_nat j) [0; 1; 0; 0; 0; 0; 0; 1] 0) 8 = 130.
+Proof. repeat split; vm_compute; reflexivity. Qed.
+
+Print Assumptions C10_a2b_array_spec.
+Print Assumptions C10_b2a_array_spec.
+Print Assumptions C10_a2b_b2a_round_trip.
+
+(* ====================================================================================== *)
+(* InversePermutation, ApplyPermutation, SegmentCumSum at the level of eval_node.
+   Property C18 (Props/C18.v: C18_apply_inverse_id, C18_apply_permutation_op_spec,
+   C18_execute_inverse_permutation_ok, C18_inverse_is_perm) proves the algebra of permutation
+   application and inversion on its own row-level model (Model/Sort.v); the statements below are
+   the element-wise documented readings for the evaluator model of this file, any rank.
+   [is_perm_list n p]: p lists n distinct values of [0, n). *)
+From CC Require Import Proofs.EvalSpecPerm.
+
+(* graphs.rs:2217: "output[i] = j if input[j] = i" -- and the result is again a permutation, with
+   input[output[i]] = i *)
+Theorem C10_inverse_permutation_spec : forall n st t es,
+  let p := map (as_u64 st) es in
+  is_perm_list n p ->
+  exists r, eval_node OInversePermutation [TArray [n] st] t [VArr es] = Ok (VArr r) /\
+    is_perm_list n r /\
+    (forall j, 0 <= j < n -> nth (Z.to_nat (nth (Z.to_nat j) p 0)) r 0 = j) /\
+    (forall i, 0 <= i < n -> nth (Z.to_nat (nth (Z.to_nat i) r 0)) p 0 = i).
+Proof. exact inverse_permutation_spec. Qed.
+(* ApplyPermutation along the first dimension: result[x] = a[p[x]]; with the inverse flag
+   result[p[x]] = a[x] *)
+Theorem C10_apply_permutation_spec : forall (inv : bool) n rest st ist t0 es p0,
+  0 < n -> valid_shape rest -> length es = Z.to_nat (prod_list (n :: rest)) ->
+  let p := map (as_u64 ist) p0 in
+  is_perm_list n p ->
+  exists r, eval_node (OApplyPermutation inv) [t0; TArray [n] ist] (TArray (n :: rest) st) [VArr es; VArr p0]
+            = Ok (VArr r) /\
+    length r = Z.to_nat (prod_list (n :: rest)) /\
+    forall x idx, 0 <= x < n -> in_shape idx rest ->
+      let px := nth (Z.to_nat x) p 0 in
+      if inv then get r (n :: rest) (px :: idx) = get es (n :: rest) (x :: idx)
+      else get r (n :: rest) (x :: idx) = get es (n :: rest) (px :: idx).
+Proof. exact apply_permutation_spec. Qed.
+(* SegmentCumSum (graphs.rs:2428): output[0] = v, output[i] = A[i-1] + B[i-1] * output[i-1],
+   element-wise on rows, modulo 2^w *)
+Theorem C10_segment_cumsum_spec : forall n rest st tb tf t A B v,
+  0 < n -> valid_shape rest -> prod_list (dims tf) = prod_list rest ->
+  let P := prod_list rest in let m := modulus st in
+  length A = Z.to_nat (n * P) -> length B = Z.to_nat n -> length v = Z.to_nat P ->
+  Forall (fun b => b = 0 \/ b = 1) B ->
+  Forall (fun e => 0 <= e < m) A -> Forall (fun e => 0 <= e < m) v ->
+  exists r, eval_node OSegmentCumSum [TArray (n :: rest) st; tb; tf] t [VArr A; VArr B; VArr v] = Ok (VArr r) /\
+    length r = Z.to_nat ((n + 1) * P) /\
+    forall i idx, 0 <= i <= n -> in_shape idx rest ->
+      get r ((n + 1) :: rest) (i :: idx) =
+      seg_cumsum_at (fun k => get A (n :: rest) (k :: idx)) (fun k => nth (Z.to_nat k) B 0)
+                    (get v rest idx) (Z.to_nat i) mod m.
+Proof. exact segment_cumsum_spec. Qed.
+
+Example C10_example_permutations :
+  is_perm_list 3 (map (as_u64 U64) [2; 0; 1]) /\
+  eval_node OInversePermutation [TArray [3] U64] (TArray [3] U64) [VArr [2; 0; 1]] = Ok (VArr [1; 2; 0]) /\
+  (* rows (10,11), (20,21), (30,2^100); result[x] = a[p[x]] *)
+  eval_node (OApplyPermutation false) [TArray [3; 2] U128; TArray [3] U64] (TArray [3; 2] U128)
+            [VArr [10; 11; 20; 21; 30; 2 ^ 100]; VArr [2; 0; 1]]
+  = Ok (VArr [30; 2 ^ 100; 10; 11; 20; 21]) /\
+  (* result[p[x]] = a[x] *)
+  eval_node (OApplyPermutation true) [TArray [3; 2] U128; TArray [3] U64] (TArray [3; 2] U128)
+            [VArr [10; 11; 20; 21; 30; 2 ^ 100]; VArr [2; 0; 1]]
+  = Ok (VArr [20; 21; 30; 2 ^ 100; 10; 11]).
+Proof.
+  split; [|repeat split; vm_compute; reflexivity].
+  split; [reflexivity|]. split; [repeat constructor; vm_compute; congruence|].
+  vm_compute. repeat constructor; cbn [In]; lia.
+Qed.
+Example C10_example_segment_cumsum :
+  (* 250, 10 + 250 = 4 (mod 256), 2 (segment restarts), 3 + 2, 4 + 5 *)
+  eval_node OSegmentCumSum [TArray [4] U8; TArray [4] Bit; TScalar U8] (TArray [5] U8)
+            [VArr [10; 2; 3; 4]; VArr [1; 0; 1; 1]; VArr [250]] = Ok (VArr [250; 4; 2; 5; 9]) /\
+  eval_node OSegmentCumSum [TArray [2; 2] U8; TArray [2] Bit; TArray [2] U8] (TArray [3; 2] U8)
+            [VArr [10; 2; 3; 4]; VArr [1; 1]; VArr [250; 1]] = Ok (VArr [250; 1; 4; 3; 7; 7]).
+Proof. split; vm_compute; reflexivity. Qed.
+
+Print Assumptions C10_inverse_permutation_spec.
+Print Assumptions C10_apply_permutation_spec.
+Print Assumptions C10_segment_cumsum_spec.
+
+(* ====================================================================================== *)
+(* Matmul with one rank-1 operand (numpy.matmul's promotion rule: the vector is treated as a
+   1 x k, resp. k x 1, matrix and the added dimension is removed from the result) and Dot of an
+   N-d array by a 1-d array (C10_dot_nd_by_1d_full above, now proved). *)
+From CC Require Import Proofs.EvalSpecMatmul1d.
+
+Theorem C10_matmul_vec_mat_spec : forall st st1 st2 b1 k m e0 e1,
+  valid_shape b1 -> 0 < k -> 0 < m ->
+  let s1 := b1 ++ [k; m] in let rs := b1 ++ [m] in
+  length e0 = Z.to_nat k -> length e1 = Z.to_nat (prod_list s1) ->
+  exists r, eval_node OMatmul [TArray [k] st; TArray s1 st1] (TArray rs st2) [VArr e0; VArr e1] = Ok (VArr r) /\
+    length r = Z.to_nat (prod_list rs) /\
+    forall bi j, in_shape bi b1 -> 0 <= j < m ->
+      get r rs (bi ++ [j]) =
+      dot_sum k (fun l => get e0 [k] [l]) (fun l => get e1 s1 (bi ++ [l; j])) mod modulus st.
+Proof. exact matmul_vec_mat_spec. Qed.
+Theorem C10_matmul_mat_vec_spec : forall st st1 st2 b0 n k e0 e1,
+  valid_shape b0 -> 0 < n -> 0 < k ->
+  let s0 := b0 ++ [n; k] in let rs := b0 ++ [n] in
+  length e0 = Z.to_nat (prod_list s0) -> length e1 = Z.to_nat k ->
+  exists r, eval_node OMatmul [TArray s0 st; TArray [k] st1] (TArray rs st2) [VArr e0; VArr e1] = Ok (VArr r) /\
+    length r = Z.to_nat (prod_list rs) /\
+    forall bi i, in_shape bi b0 -> 0 <= i < n ->
+      get r rs (bi ++ [i]) =
+      dot_sum k (fun l => get e0 s0 (bi ++ [i; l])) (fun l => get e1 [k] [l]) mod modulus st.
+Proof. exact matmul_mat_vec_spec. Qed.
+Theorem C10_dot_nd_by_1d_spec : C10_dot_nd_by_1d_full.
+Proof. exact dot_nd_by_1d_spec. Qed.
+
+Example C10_example_matmul_1d :
+  (* (3, 2^100) x [[[1,2],[3,4]], [[5,6],[7,2^27]]] *)
+  eval_node OMatmul [TArray [2] U128; TArray [2; 2; 2] U128] (TArray [2; 2] U128)
+            [VArr [3; 2 ^ 100]; VArr [1; 2; 3; 4; 5; 6; 7; 2 ^ 27]]
+  = Ok (VArr [3 + 3 * 2 ^ 100; 6 + 4 * 2 ^ 100; 15 + 7 * 2 ^ 100; 18 + 2 ^ 127]) /\
+  (* [[1,2],[3,4]] x (5, 2^126) *)
+  eval_node OMatmul [TArray [2; 2] U128; TArray [2] U128] (TArray [2] U128)
+            [VArr [1; 2; 3; 4]; VArr [5; 2 ^ 126]]
+  = Ok (VArr [5 + 2 ^ 127; 15]) /\
+  eval_node ODot [TArray [2; 2] U128; TArray [2] U128] (TArray [2] U128)
+            [VArr [1; 2; 3; 4]; VArr [5; 2 ^ 126]]
+  = Ok (VArr [5 + 2 ^ 127; 15]).
+Proof. repeat split; vm_compute; reflexivity. Qed.
+
+Print Assumptions C10_matmul_vec_mat_spec.
+Print Assumptions C10_matmul_mat_vec_spec.
+Print Assumptions C10_dot_nd_by_1d_spec.
+
+(* ====================================================================================== *)
+(* VectorGet (index read as an unsigned 64-bit value, out of range = error) and NamedTupleGet
+   (the component of the first field with the given name). *)
+From CC Require Import Proofs.EvalSpecGetters.
+
+Theorem C10_vector_get_spec : forall size et ist t l x,
+  let i := as_u64 ist x in
+  i < size -> i < Z.of_nat (length l) ->
+  eval_node OVectorGet [TVector size et; TScalar ist] t [VTup l; VArr [x]]
+  = Ok (nth (Z.to_nat i) l (VArr [])).
+Proof. exact vector_get_spec. Qed.
+Theorem C10_named_tuple_get_spec : forall fs name t l,
+  length l = length fs ->
+  (exists f, In f fs /\ fst f = name) ->
+  exists i, eval_node (ONamedTupleGet name) [TNamed fs] t [VTup l] = Ok (nth i l (VArr [])) /\
+    (i < length fs)%nat /\ fst (nth i fs (String.EmptyString, TTuple [])) = name /\
+    forall j, (j < i)%nat -> fst (nth j fs (String.EmptyString, TTuple [])) <> name.
+Proof. exact named_tuple_get_spec. Qed.
+
+Example C10_example_getters :
+  eval_node OVectorGet [TVector 2 (TScalar U8); TScalar U32] (TScalar U8) [VTup [VArr [7]; VArr [9]]; VArr [1]]
+  = Ok (VArr [9]) /\
+  eval_node (ONamedTupleGet "b") [TNamed [("a"%string, TScalar U8); ("b"%string, TArray [2] U8)]] (TArray [2] U8)
+            [VTup [VArr [7]; VArr [1; 2]]]
+  = Ok (VArr [1; 2]).
+Proof. split; vm_compute; reflexivity. Qed.
+
+Print Assumptions C10_vector_get_spec.
+Print Assumptions C10_named_tuple_get_spec.
